@@ -182,13 +182,13 @@ def find_pattern(text, pattern, want_caps=False):
                 e = i
                 while e < n:
                     t = T[e]
-                    if depth == 0 and t.k == rsx.P and t.s in (';', '{', '}'):
-                        return None   # a capture never crosses a statement or block boundary
                     if depth == 0 and e > i and nxt is not None and not isinstance(nxt, tuple) and (nxt is None or t.s == nxt):
                         r = match(e, j + 1, caps)
                         if r is not None:
                             caps[p[1]] = (T[i].a, T[e - 1].b)
                             return r
+                    if depth == 0 and t.k == rsx.P and t.s in (';', '{', '}'):
+                        return None   # a capture never crosses a statement or block boundary (it may end at one)
                     if t.k == rsx.P and t.s in rsx.OPEN:
                         depth += 1
                     elif t.k == rsx.P and t.s in rsx.CLOSE:
